@@ -1,4 +1,5 @@
 import Litep2pVerif.Proofs.Conn.Loop
+import Litep2pVerif.Proofs.Conn.Permits
 /-!
 # C07 — A terminated connection is reported closed to everyone exactly once
 
@@ -59,6 +60,41 @@ example :
     let s2 := run s1 [.env (.recv 0)]
     s1.exited = none ∧ s1.ps.log = [.proto 1 .closed] ∧
     s2.exited = some .err ∧ s2.ps.log = [.proto 1 .closed, .proto 0 .closed, .mgr] := by decide
+
+/-- **… and the same with the permits computed instead of assumed** (`Model/Conn/Permits.lean`, the model
+the real `TcpConnection::start` loop is driven against in the `tcploop` area). There the no-permit exit of
+`handle_yamux_substream` (`try_get_permit().ok_or(Error::ConnectionClosed)?`) is not an input flag but what
+happens when an inbound substream is accepted after the last strong sender is gone, and the idle exit is
+enabled only then. For every sequence of loop events, handle operations of the protocols (downgrade,
+upgrade, drop, open, force-close, shut down) and deliveries: nobody is told twice, and once `start()` has
+returned everybody alive has been told exactly once. -/
+theorem tcploop_exit_reports_closed_once (s0 : TLoop) (h0 : Fresh s0.loop.ps) (hc : s0.loop.cont = none)
+    (hx : s0.loop.exited = none) (ls : List TLabel) :
+    let s := (trun s0 ls).loop
+    (∀ j, cnt s.ps j .closed ≤ 1) ∧ mgrCnt s.ps ≤ 1 ∧
+    (s.exited.isSome →
+      s.ps.closedRuns = 1 ∧ (∀ j, aliveAt s.ps j → cnt s.ps j .closed = 1) ∧
+      (s.ps.mgr.alive = true → mgrCnt s.ps = 1)) :=
+  (trun_pinv ls s0 (h0.pinv hc hx)).reports
+
+/-- Non-vacuity, the no-permit exit explicitly: two protocols (keep-alive yes / no) take the connection,
+one downgrades its handle and the other drops it; a remote substream arrives. No permit can be had: the
+substream is counted (`accepted = 1`) but never enters `pending_substreams`, `run_event_loop` fails,
+`start()` makes up for the close report and returns `Err`: both protocols, then the manager, told once.
+The state `tinit` satisfies the hypotheses of the theorem. -/
+example :
+    let s := trun (tinit [true, false] 4) [.recv 0, .recv 1, .downgrade 0, .dropHandle 1, .accept]
+    Fresh (tinit [true, false] 4).loop.ps ∧
+    s.loop.exited = some .err ∧ s.accepted = 1 ∧ s.subs = [] ∧
+    s.loop.ps.log = [.proto 0 .closed, .proto 1 .closed, .mgr] :=
+  ⟨tinit_fresh _ _, by decide⟩
+
+/-- Non-vacuity, the race the event loop may resolve either way (`select!` picks): with the same state the
+idle exit is enabled too; it returns `Ok` with the same reports, the substream is never looked at. -/
+example :
+    let s := trun (tinit [true, false] 4) [.recv 0, .recv 1, .downgrade 0, .dropHandle 1, .idleExit]
+    s.loop.exited = some .ok ∧ s.accepted = 0 ∧
+    s.loop.ps.log = [.proto 0 .closed, .proto 1 .closed, .mgr] := by decide
 
 theorem envRun_rel (os : List EnvOp) : ∀ ps, Conn.Inv ps → WF ps →
     Conn.Inv (os.foldl envStep ps) ∧ WF (os.foldl envStep ps) ∧
@@ -385,6 +421,8 @@ end Litep2pVerif.Props.C07
 
 open Litep2pVerif.Props.C07 in
 #print axioms exit_reports_closed_once
+open Litep2pVerif.Props.C07 in
+#print axioms tcploop_exit_reports_closed_once
 open Litep2pVerif.Props.C07 in
 #print axioms protocols_before_manager
 open Litep2pVerif.Props.C07 in
